@@ -36,6 +36,8 @@ Definition atom_eqb (a b : atom) : bool :=
   | _, _ => false
   end.
 
+(* The expression language: + - * neg, natural powers, the unary functions `fn` and max/min.  There is NO division, no
+   non-integer power, no sqrt/log: `x/tau` and the quotient rule are outside every theorem (and outside the exact stream). *)
 Inductive expr (K : Type) :=
 | Cst (c : K)
 | At (a : atom)
